@@ -536,10 +536,27 @@ def oracle(inp):
         r = run_race(inp[:5], cancel_after_iteration=inp[5])
         return _check_final(r["result"], r["open"]) if r["done"] else None
     snaps = run_race(inp)
+    kind, _hd, addrs, _loc, batches = inp[:5]
+    scripted_crash = any(a[2] == 3 for a in addrs) or any(e[0] == 2 for b in batches for e in b)
+    for k, sn in enumerate(snaps):
+        flags, _created, open_ids, result = sn
+        if result:
+            msg = _check_final(result, open_ids)
+            if msg:
+                return msg
+            if result[0] == 3 and not scripted_crash:
+                return ("race: raised an exception that is neither the attempts' OSErrors nor a cancellation although no "
+                        "attempt raised anything else")
+        if k > 0:
+            # prompt return: once a pending connect has completed successfully the call is over at the next quiescent
+            # point -- no further event (the loser finishing by itself, a timer) is needed -- and only the winner is open
+            won = any(f and ev[0] == 0 for f, ev in zip(flags, batches[k - 1]))
+            if won and not result:
+                return (f"race: an attempt connected but the call did not return at once; sockets {open_ids} still open "
+                        "and the race pending")
     msg = _check_final(snaps[-1][3], snaps[-1][2])
     if msg:
         return msg
-    # every socket ever open at a quiescent point belongs to a started attempt; after a result nothing changes
     return None
 
 
